@@ -46,10 +46,9 @@ def extract_printers(ctx, classes):
         where = ctx.where(f.module, rets[0])
         if cc.sem in ('and', 'or'):
             j = [s for s in segs if isinstance(s, Join)]
-            ok = len(j) == 1 and j[0].iter_text == 'self.' + (
-                cc.child_attr or '?') and all(
-                    isinstance(s, (Lit, Join)) for s in segs) and all(
-                        isinstance(x, Lit) for x in j[0].sep)
+            ok = len(j) == 1 and j[0].iter_text.startswith('self.') and all(
+                isinstance(s, (Lit, Join)) for s in segs) and all(
+                    isinstance(x, Lit) for x in j[0].sep)
             elem_ok = ok and (j[0].elem is None or (
                 len(j[0].elem) == 1 and isinstance(j[0].elem[0], Hole)))
             if not (ok and elem_ok):
@@ -58,6 +57,15 @@ def extract_printers(ctx, classes):
                        'the printed form of a combinator is not `open + '
                        'infix.join(children) + close`')
                 raise AnalysisError('combinator printer not recognised')
+            same = j[0].iter_text == 'self.' + (cc.child_attr or '?')
+            ctx.ob('C15.FORMATS', same, where, f.qual,
+                   'printed children %s / evaluated children self.%s' % (
+                       j[0].iter_text, cc.child_attr),
+                   'the printer lists exactly the children the evaluator '
+                   'folds over' if same else
+                   'the printer lists %s but __call__ folds over self.%s: '
+                   'the printed rule and the decisions can diverge' % (
+                       j[0].iter_text, cc.child_attr))
             i = segs.index(j[0])
             op = ''.join(s.text for s in segs[:i])
             cl = ''.join(s.text for s in segs[i + 1:])
@@ -78,6 +86,21 @@ def extract_printers(ctx, classes):
             if not (len(segs) == 1 and isinstance(segs[0], Lit)):
                 raise AnalysisError('constant printer not recognised')
             pr.consts[cc.sem] = (segs[0].text, f, rets[0])
+        elif q != CHECKS + '.Check' and prog.is_subclass(
+                q, CHECKS + '.Check') and f.cls.qual != CHECKS + '.Check':
+            # a leaf class with a printer of its own must print exactly
+            # kind SEP match like the base leaf
+            ok = len(segs) == 3 and isinstance(segs[0], Hole) and isinstance(
+                segs[1], Lit) and isinstance(segs[2], Hole) and (
+                    segs[0].source, segs[2].source) == ('self.kind',
+                                                        'self.match')
+            ctx.ob('C15.FORMATS', ok, where, f.qual,
+                   'leaf printer override ' + shape_text(segs)[:60],
+                   'prints kind, separator, match verbatim' if ok else
+                   'the leaf class %s prints itself differently from '
+                   '`kind:match` (it rewrites the text), so the printed rule '
+                   'can parse back to a different check' % q.rsplit(
+                       '.', 1)[-1])
         elif q == CHECKS + '.Check':
             ok = len(segs) == 3 and isinstance(segs[0], Hole) and isinstance(
                 segs[1], Lit) and isinstance(segs[2], Hole)
@@ -420,7 +443,14 @@ def check(ctx):
                 'RuleDefault.__eq__ are checked structurally.')
     ctx.assume('leaves contain no whitespace, parentheses at the ends or '
                'enclosing quotes (the quantifier of the property)')
-    classes, pstate, table, effects, model = c01.grammar_model(ctx)
+    classes0 = G.check_classes(ctx.prog)
+    pr0 = extract_printers(ctx, classes0)
+    try:
+        classes, pstate, table, effects, model = c01.grammar_model(ctx)
+    except G.EffectError:
+        if ctx.findings:
+            return          # the printer finding explains the mismatch
+        raise
     pred, rows, unknown, res = c01.accept_predicate(ctx, pstate)
     tf, en, paths = T.extract(ctx.prog)
     opens = closes = None
@@ -431,8 +461,16 @@ def check(ctx):
             closes = kind
     if opens is None or closes is None:
         raise AnalysisError('paren peeling not recognised in the tokenizer')
-    pr = extract_printers(ctx, classes)
+    pr = pr0
     check_formats(ctx, pr, tf, table, opens, closes)
+    # C15.TOKENS: the reader side of the agreement (tokenizer rules of C01)
+    ctx._effects = effects
+    nf, no = len(ctx.findings), len(ctx.obligations)
+    c01.check_tokenizer(ctx, table, tf, en, paths)
+    for fd in ctx.findings[nf:]:
+        fd.rule = 'C15.TOKENS(' + fd.rule + ')'
+    for o in ctx.obligations[no:]:
+        o['rule'] = 'C15.TOKENS(' + o['rule'] + ')'
     check_roundtrip(ctx, pr, tf, model, pred, opens, closes)
     check_dump(ctx)
     check_eq(ctx)
